@@ -18,7 +18,7 @@ func init() {
 	fw.Register(&fw.Check{
 		ID:    "C07",
 		Level: "exploration",
-		Rule: "case idx: message length = 1 + idx mod L octets (every length 1..L, L=300 quick / 2100 thorough), random key, COUNT in {0,1,2^24-1,2^32-1,random}, BEARER cycling through all 0..31, DIRECTION 0|1; " +
+		Rule: "case idx: message length = 1 + idx mod L octets (every length 1..L, L=300 quick / 2100 thorough; every eighth case a long message: 2^k+d for k=9..16, |d|<=17, and random lengths up to 66000 octets), random key, COUNT in {0,1,2^24-1,2^32-1,random}, BEARER cycling through all 0..31, DIRECTION 0|1; " +
 			"each case evaluates NEA0, NEA1, NEA2 (security.NASEncrypt, in place) and NIA1, NIA2 (security.NASMacCalculate) against ref/sec, checks encrypt(encrypt(m))==m, keystream coverage of every octet, " +
 			"and repeats the call after an unrelated call with other parameters. distinct = hash(inputs); all cases non-trivial",
 		Assumptions: []string{
@@ -38,6 +38,20 @@ func init() {
 	})
 }
 
+// c07LongLengths: 2^k + d for k = 9..16 and small d on both sides (chunked keystream generation, 16-bit length
+// arithmetic and block-count computations change behaviour exactly there).
+func c07LongLengths() []int {
+	var out []int
+	for k := 9; k <= 16; k++ {
+		for _, d := range []int{-17, -16, -15, -9, -8, -7, -5, -4, -3, -2, -1, 0, 1, 2, 3, 4, 5, 7, 8, 9, 15, 16, 17} {
+			if n := 1<<uint(k) + d; n <= 66000 {
+				out = append(out, n)
+			}
+		}
+	}
+	return append(out, 3000, 5000, 12289, 20000, 40000, 65535+7, 66000)
+}
+
 func runC07(c *fw.Case) (o fw.Outcome) {
 	r := c.R
 	L := 300
@@ -46,6 +60,17 @@ func runC07(c *fw.Case) (o fw.Outcome) {
 	}
 	n := 1 + c.Idx%L
 	round := c.Idx / L
+	if c.Idx%8 == 7 { // long messages: a payload container carries up to 65535 octets; lengths around every power of two up to 2^16
+		ll := c07LongLengths()
+		k := c.Idx / 8
+		if k%3 == 2 {
+			n = 301 + r.Intn(66000-301)
+		} else {
+			n = ll[(k-k/3)%len(ll)]
+		}
+		o.Tag("long-message")
+		o.Max("longest_message_octets", int64(n))
+	}
 	var key [16]byte
 	copy(key[:], cornerBytes(r, 16))
 	count := pick(r, uint32(0), 1, 1<<24-1, 1<<32-1, r.Uint32(), r.Uint32()&0xffffff)
